@@ -170,15 +170,15 @@ func ExtractTopology(fn *ssa.Function) *FunctionTopology {
 			case *ssa.Phi:
 				t.PhiCount++
 			case *ssa.Call:
-				sig := extractCallSignature(i)
+				sig := selfAware(fn, i.Call.Value, extractCallSignature(i))
 				t.CallSignatures[sig]++
 			case *ssa.Go:
 				t.HasGo = true
-				sig := extractGoSignature(i)
+				sig := selfAware(fn, i.Call.Value, extractGoSignature(i))
 				t.CallSignatures["go:"+sig]++
 			case *ssa.Defer:
 				t.HasDefer = true
-				sig := extractDeferSignature(i)
+				sig := selfAware(fn, i.Call.Value, extractDeferSignature(i))
 				t.CallSignatures["defer:"+sig]++
 			case *ssa.Panic:
 				t.HasPanic = true
@@ -354,6 +354,53 @@ func extractDeferSignature(d *ssa.Defer) string {
 		return fmt.Sprintf("dynamic:%s", normalizeTypeName(d.Call.Value.Type()))
 	}
 	return "unknown"
+}
+
+// selfAware replaces the signature of a direct call to the analysed function itself by a
+// name-free token: a recursive function must keep its topology when it is renamed.
+func selfAware(subject *ssa.Function, callee ssa.Value, sig string) string {
+	if fn, ok := callee.(*ssa.Function); ok && fn == subject {
+		return "self:" + nameFreeSignature(fn.Signature)
+	}
+	return sig
+}
+
+// nameFreeSignature renders a signature from its parameter and result types only.
+// (*types.Signature).String() includes parameter names, which are free to change.
+func nameFreeSignature(sig *types.Signature) string {
+	var sb strings.Builder
+	sb.WriteString("func(")
+	params := sig.Params()
+	for i := 0; i < params.Len(); i++ {
+		if i > 0 {
+			sb.WriteString(", ")
+		}
+		t := params.At(i).Type()
+		if sig.Variadic() && i == params.Len()-1 {
+			if slice, ok := t.(*types.Slice); ok {
+				sb.WriteString("..." + slice.Elem().String())
+				continue
+			}
+		}
+		sb.WriteString(t.String())
+	}
+	sb.WriteString(")")
+	results := sig.Results()
+	switch results.Len() {
+	case 0:
+	case 1:
+		sb.WriteString(" " + results.At(0).Type().String())
+	default:
+		sb.WriteString(" (")
+		for i := 0; i < results.Len(); i++ {
+			if i > 0 {
+				sb.WriteString(", ")
+			}
+			sb.WriteString(results.At(i).Type().String())
+		}
+		sb.WriteString(")")
+	}
+	return sb.String()
 }
 
 func extractClosureSignature(v *ssa.MakeClosure) string {
